@@ -3,6 +3,41 @@
 scratch worktree of /repo HEAD and run the given checks; a check must exit 0 (no alarm)."""
 import subprocess, sys, os, re, json, glob, shutil
 g = sys.argv[1]; checks = sys.argv[2:]
+# checks == ["auto"]: choose the checks from the files a patch touches (property anchors + users)
+AUTO = {
+ "Simulations/_simu.py": "C01 C03 C04 C05 C09 C13 C14 C15 C16 C18 C20",
+ "Simulations/Solvers.py": "C01 C04 C05 C17 C18",
+ "Simulations/_elastic.py": "C01 C02 C05 C14 C15 C16",
+ "Simulations/_thermal.py": "C01 C02 C05 C09 C13 C15 C16",
+ "Simulations/_weakforms.py": "C13 C14 C15 C16",
+ "FEM/_linalg.py": "C01 C02 C03 C12 C13 C16",
+ "FEM/_field.py": "C12 C13",
+ "FEM/_forms.py": "C13 C03",
+ "FEM/Operators": "C02 C09 C10 C13",
+ "FEM/_group_elem.py": "C01 C02 C06 C07 C08 C09 C13 C16",
+ "FEM/_gauss.py": "C01 C02 C07 C08 C09",
+ "Utilities/_cache.py": "C02 C03 C08 C14",
+ "Models/InElastic": "C14 C15 C19",
+ "Simulations/_inelastic.py": "C14 C15 C19",
+ "Models/_phasefield.py": "C17",
+ "Simulations/_phasefield.py": "C14 C15 C16 C17",
+ "Models/HyperElastic": "C10 C18",
+ "Simulations/_hyperelastic.py": "C14 C15 C16 C18",
+ "Models/_utils.py": "C10 C11 C13 C16 C17",
+ "FEM/_boundary_conditions.py": "C01 C04 C09 C14",
+ "Utilities/_params.py": "C11 C14",
+ "Models/Elastic/_laws.py": "C01 C10 C11",
+ "FEM/_mesh.py": "C01 C08 C10 C14 C15 C20",
+ "FEM/Elems/_beam.py": "C01 C02 C06 C09 C10",
+ "Models/Beam": "C02 C10", "Simulations/_beam.py": "C10 C14 C15 C16", "FEM/_mesher.py": "C20",
+}
+def auto_checks(patch):
+    out = set()
+    for f in re.findall(r"^\+\+\+ b/EasyFEA/(\S+)", open(patch).read(), re.M):
+        for k, v in AUTO.items():
+            if f.startswith(k):
+                out |= set(v.split())
+    return sorted(out) or ["C14"]
 src = "/tmp/refac_%s" % g
 wt = "/tmp/refacrun_%s" % g
 subprocess.run(["git", "-C", "/repo", "worktree", "add", "--detach", wt, "HEAD"], capture_output=True)
@@ -18,9 +53,12 @@ try:
         if subprocess.run(["git", "-C", wt, "apply", p], capture_output=True).returncode != 0:
             print(g, i, "patch does not apply"); continue
         row = {}
-        for c in checks:
+        cl = auto_checks(p) if checks == ["auto"] else checks
+        k0 = (i * 3 + sum(map(ord, g))) % len(cl)
+        for c in cl[k0:] + cl[:k0]:
             q = subprocess.run(["/verif/check", c], cwd="/verif", env=dict(os.environ, VERIF_REPO=wt), capture_output=True, text=True, timeout=3600)
             viol = [l for l in q.stdout.splitlines() if l.startswith("VIOLATION")]
+            open("/verif/build/logs/refac_%s_%d_%s.out" % (g, i, c), "w").write(q.stdout[-6000:])
             keys = []
             for l in viol[:3]:
                 m = re.search(r"replay=(\S+)", l)
